@@ -31,7 +31,11 @@ json snapshot(const Out& o) {
     std::string data;
     std::string p = o.final_path();
     s["path"] = p;
-    if (slurp(p, data)) { s["size"] = data.size(); s["fnv"] = fnv64(data); s["exists"] = true; }
+    if (slurp(p, data)) {
+        s["size"] = data.size(); s["fnv"] = fnv64(data); s["exists"] = true;
+        struct stat fst;
+        if (o.kind == "name" && ::stat(p.c_str(), &fst) == 0) s["mode"] = static_cast<int>(fst.st_mode & 0777);
+    }
     else s["exists"] = false;
     struct stat st;
     s["part_exists"] = (o.kind == "name" && ::stat((p + ".part").c_str(), &st) == 0);
